@@ -620,3 +620,68 @@ mod tests {
         assert_eq!(2, payload.num_blobs());
     }
 }
+
+/// Add-only accessors for the `verif` facade (`crate::verif`). Forwards to the real items of this
+/// module; contains no logic of its own.
+#[cfg(feature = "verif")]
+pub(super) mod verif_hooks {
+    use celestia_types::Blob;
+    use sequencer_client::SequencerBlock;
+
+    use super::{
+        Input,
+        InputMeta,
+        TryIntoPayloadError,
+    };
+    use crate::IncludeRollup;
+
+    pub(crate) const MAX_PAYLOAD_SIZE_BYTES: usize = super::MAX_PAYLOAD_SIZE_BYTES;
+
+    /// The observable parts of a [`super::Payload`].
+    pub(crate) struct PayloadParts {
+        pub(crate) blobs: Vec<Blob>,
+        pub(crate) compressed_size: usize,
+        pub(crate) uncompressed_size: usize,
+    }
+
+    /// `Input::new` + `Input::extend_from_sequencer_block` for every block +
+    /// `Input::try_into_payload`.
+    pub(crate) fn convert(
+        blocks: Vec<SequencerBlock>,
+        rollup_filter: &IncludeRollup,
+    ) -> astria_eyre::eyre::Result<PayloadParts> {
+        let mut input = Input::new();
+        for block in blocks {
+            input.extend_from_sequencer_block(block, rollup_filter);
+        }
+        let payload = input
+            .try_into_payload()
+            .map_err(|error: TryIntoPayloadError| astria_eyre::eyre::Report::new(error))?;
+        Ok(PayloadParts {
+            compressed_size: payload.compressed_size(),
+            uncompressed_size: payload.uncompressed_size(),
+            blobs: payload.blobs,
+        })
+    }
+
+    impl InputMeta {
+        pub(crate) fn verif_sequencer_heights(&self) -> Vec<u64> {
+            self.sequencer_heights
+                .iter()
+                .map(tendermint::block::Height::value)
+                .collect()
+        }
+
+        pub(crate) fn verif_rollups_included(
+            &self,
+        ) -> Vec<astria_core::primitive::v1::RollupId> {
+            self.rollups_included.keys().copied().collect()
+        }
+
+        pub(crate) fn verif_rollups_excluded(
+            &self,
+        ) -> Vec<astria_core::primitive::v1::RollupId> {
+            self.rollups_excluded.iter().copied().collect()
+        }
+    }
+}
